@@ -99,7 +99,191 @@ def inlinable(fn: T.Any) -> bool:
     for n in ast.walk(fn):
         if isinstance(n, (ast.Yield, ast.YieldFrom, ast.Lambda, ast.ClassDef, ast.Global, ast.Nonlocal)) or (isinstance(n, FUNC_KINDS) and n is not fn):
             return False
-    return _tail_returns_only(_guard_to_else(body))
+    return True
+
+
+def _has_return(node: ast.AST | list[ast.stmt]) -> bool:
+    nodes = node if isinstance(node, list) else [node]
+    return any(isinstance(x, ast.Return) for n in nodes for x in ast.walk(n))
+
+
+def _terminates(stmts: list[ast.stmt]) -> bool:
+    """The block never falls through to the statement after it."""
+    if not stmts:
+        return False
+    last = stmts[-1]
+    if isinstance(last, (ast.Return, ast.Raise, ast.Break, ast.Continue)):
+        return True
+    if isinstance(last, ast.If):
+        return bool(last.orelse) and _terminates(last.body) and _terminates(last.orelse)
+    if isinstance(last, (ast.With, ast.AsyncWith)):
+        return _terminates(last.body)
+    if isinstance(last, ast.While) and isinstance(last.test, ast.Constant) and bool(last.test.value) is True and not _own_breaks(last):
+        return True
+    return False
+
+
+def _own_breaks(loop: ast.AST) -> bool:
+    """Does the loop contain a `break` of its own (not one of a nested loop)?"""
+    def walk(stmts: list[ast.stmt]) -> bool:
+        for st in stmts:
+            if isinstance(st, ast.Break):
+                return True
+            if isinstance(st, (ast.For, ast.AsyncFor, ast.While)):
+                if walk(st.orelse):
+                    return True
+                continue
+            for field in ("body", "orelse", "finalbody"):
+                if walk(getattr(st, field, []) or []):
+                    return True
+            for h in getattr(st, "handlers", []) or []:
+                if walk(h.body):
+                    return True
+        return False
+    return walk(loop.body)  # type: ignore[attr-defined]
+
+
+class _RetElim:
+    """Single-exit form of a helper body for the calling forms `x = helper()` / `helper()`: every `return e` delivers its value
+    (assignment to the target / evaluation) and control continues after the inlined body.
+      * a return in tail position (last statement, through if / with / try) needs no jump;
+      * a return inside a loop becomes `break`; the statements after the loop move into the loop's `else` clause when the loop has
+        no other break (exact: the else clause runs precisely when the loop was not left by break) - otherwise a flag guards them;
+      * any other non-tail return sets a flag and the statements after the enclosing compound statement run under `if not flag`."""
+
+    def __init__(self, form: str, target: T.Any, name: str, serial: int, via_temp: bool):
+        self.form, self.target = form, target
+        self.flag = f"done__{name}{serial}"
+        self.temp = f"ret__{name}{serial}" if via_temp and form == "assign" else None
+        self.flag_read = False
+
+    def deliver(self, r: ast.Return) -> list[ast.stmt]:
+        val = r.value
+        if self.form == "assign":
+            tgt = _clone(self.target)
+            if self.temp:
+                tgt = ast.Name(id=self.temp, ctx=ast.Store())
+            elif isinstance(val, ast.Name) and isinstance(self.target, ast.Name) and val.id == self.target.id:
+                return []
+            return [ast.copy_location(ast.Assign(targets=[tgt], value=val if val is not None else ast.Constant(value=None)), r)]
+        if val is not None and any(isinstance(x, (ast.Call, ast.Await)) for x in ast.walk(val)):
+            return [ast.copy_location(ast.Expr(value=val), r)]
+        return []
+
+    def set_flag(self, at: ast.AST) -> ast.stmt:
+        return ast.copy_location(ast.Assign(targets=[ast.Name(id=self.flag, ctx=ast.Store())], value=ast.Constant(value=True)), at)
+
+    def not_flag(self, body: list[ast.stmt], at: ast.AST) -> list[ast.stmt]:
+        if not body:
+            return []
+        self.flag_read = True
+        return [ast.copy_location(ast.If(test=ast.UnaryOp(op=ast.Not(), operand=ast.Name(id=self.flag, ctx=ast.Load())), body=body, orelse=[]), at)]
+
+    def block(self, stmts: list[ast.stmt], tail: bool, loops: int) -> list[ast.stmt]:
+        out: list[ast.stmt] = []
+        for i, st in enumerate(stmts):
+            rest = stmts[i + 1:]
+            if isinstance(st, ast.Return):
+                out += self.deliver(st)
+                if loops:
+                    out += [self.set_flag(st), ast.copy_location(ast.Break(), st)]
+                elif not tail:
+                    out.append(self.set_flag(st))
+                return out or [ast.copy_location(ast.Pass(), st)]                      # whatever follows a return is dead
+            if not _has_return(st):
+                out.append(st)
+                continue
+            if isinstance(st, ast.If):
+                if rest and _terminates(st.body):
+                    st.orelse = list(st.orelse) + rest
+                    rest = []
+                elif rest and st.orelse and _terminates(st.orelse):
+                    st.body = list(st.body) + rest
+                    rest = []
+                elif rest and not loops and sum(1 for r_ in rest for _ in ast.walk(r_)) <= 400:
+                    # a return somewhere inside a branch that may also fall through: the continuation is duplicated into both
+                    # branches (tail duplication) - no flag, and every return is then in tail position of its branch
+                    st.body = list(st.body) + [_clone(r_) for r_ in rest]
+                    st.orelse = list(st.orelse) + [_clone(r_) for r_ in rest]
+                    rest = []
+                t = tail and not rest
+                st.body = self.block(st.body, t, loops) or [ast.copy_location(ast.Pass(), st)]
+                st.orelse = self.block(st.orelse, t, loops) if st.orelse else []
+                out.append(st)
+            elif isinstance(st, (ast.With, ast.AsyncWith)):
+                st.body = self.block(st.body, tail and not rest, loops) or [ast.copy_location(ast.Pass(), st)]
+                out.append(st)
+            elif isinstance(st, ast.Try):
+                if _has_return(st.finalbody):
+                    raise _NotInlinable("return inside a finally clause")
+                t = tail and not rest
+                body_returns = _has_return(st.body)
+                st.body = self.block(st.body, t and not st.orelse, loops) or [ast.copy_location(ast.Pass(), st)]
+                for h in st.handlers:
+                    h.body = self.block(h.body, t, loops) or [ast.copy_location(ast.Pass(), h)]
+                if st.orelse:
+                    body = self.block(st.orelse, t, loops)
+                    st.orelse = self.not_flag(body, st) if body_returns and not loops else body
+                out.append(st)
+            elif isinstance(st, (ast.For, ast.AsyncFor, ast.While)):
+                st.body = self.block(st.body, False, loops + 1)
+                if st.orelse:
+                    st.orelse = self.block(st.orelse, tail and not rest, loops)
+                out.append(st)
+                infinite = isinstance(st, ast.While) and isinstance(st.test, ast.Constant) and bool(st.test.value) is True
+                others = _own_breaks_other(st, self.flag)
+                if loops:
+                    # the converted return leaves the enclosing loop(s) too
+                    self.flag_read = True
+                    out.append(ast.copy_location(ast.If(test=ast.Name(id=self.flag, ctx=ast.Load()), body=[ast.copy_location(ast.Break(), st)], orelse=[]), st))
+                    out += self.block(rest, False, loops)
+                elif infinite and not others:
+                    pass                         # `while True` left only by the converted returns: the rest was unreachable
+                elif rest and not st.orelse and not others:
+                    st.orelse = self.block(rest, tail, loops)
+                else:
+                    out += self.not_flag(self.block(rest, tail, loops), st)
+                return out
+            else:
+                raise _NotInlinable(f"return inside {type(st).__name__}")
+            if rest:
+                # a non-tail return may have happened inside `st`
+                if loops:
+                    out += self.block(rest, False, loops)     # inside a loop the converted return has already left by `break`
+                else:
+                    out += self.not_flag(self.block(rest, tail, loops), st)
+            return out
+        return out
+
+
+class _NotInlinable(Exception):
+    pass
+
+
+def _own_breaks_other(loop: ast.AST, flag: str) -> bool:
+    """A `break` of this loop that does not come from a converted return (those are preceded by `flag = True`)."""
+    def walk(stmts: list[ast.stmt]) -> bool:
+        for j, st in enumerate(stmts):
+            if isinstance(st, ast.Break):
+                prev = stmts[j - 1] if j else None
+                if not (isinstance(prev, ast.Assign) and isinstance(prev.targets[0], ast.Name) and prev.targets[0].id == flag):
+                    return True
+                continue
+            if isinstance(st, (ast.For, ast.AsyncFor, ast.While)):
+                # the nested loop's own breaks are not ours, but `if flag: break` right after it is a converted one
+                if walk(st.orelse):
+                    return True
+                continue
+            if isinstance(st, ast.If) and isinstance(st.test, ast.Name) and st.test.id == flag:
+                continue
+            for field in ("body", "orelse", "finalbody"):
+                if walk(getattr(st, field, []) or []):
+                    return True
+            for h in getattr(st, "handlers", []) or []:
+                if walk(h.body):
+                    return True
+        return False
+    return walk(loop.body)  # type: ignore[attr-defined]
 
 
 def expression_helper(fn: T.Any) -> ast.expr | None:
@@ -186,12 +370,22 @@ def _chain_ok(e: ast.AST) -> bool:
     return isinstance(e, ast.Name)
 
 
+_DEFS: dict[str, T.Any] = {}        # helper name -> definition, set by inline_new_helpers for the module being processed
+
+
 def _helper_ref(call: ast.Call, names: T.Container[str]) -> tuple[str, ast.expr | None] | None:
-    """(helper name, receiver expression or None) if `call` calls one of `names`."""
+    """(helper name, receiver expression or None) if `call` calls one of `names`.  A module-level helper is called by its bare
+    name, a method through a receiver."""
     f = call.func
     if isinstance(f, ast.Name) and f.id in names:
+        d = _DEFS.get(f.id)
+        if d is not None and getattr(d, "_in_class", False):
+            return None
         return f.id, None
     if isinstance(f, ast.Attribute) and f.attr in names and _chain_ok(f.value):
+        d = _DEFS.get(f.attr)
+        if d is not None and not getattr(d, "_in_class", False):
+            return None
         return f.attr, f.value
     return None
 
@@ -319,6 +513,11 @@ def _expand(call: ast.Call, form: str, target: T.Any, helper: T.Any, receiver: a
     for p, a in bound.items():
         if (_simple(a) or p == "self") and p not in assigned:
             mapping[p] = a
+        elif form == "assign" and not observed and isinstance(a, ast.Name) and isinstance(target, ast.Name) and a.id == target.id and p in assigned \
+                and not any(isinstance(x, ast.Name) and x.id == a.id for q, b_ in bound.items() if q != p for x in ast.walk(b_)):
+            # `x = helper(x)` with the parameter re-bound inside the helper: the helper works on the caller's variable itself
+            # (nobody can observe the intermediate values: no handler of the caller reads x)
+            rename[p] = a.id
         else:
             tmp = f"{p}__{helper.name.strip('_')}{serial}"
             rename[p] = tmp
@@ -328,7 +527,9 @@ def _expand(call: ast.Call, form: str, target: T.Any, helper: T.Any, receiver: a
     for v in assigned:
         if v not in bound and v in caller_names and v != same_var:
             rename[v] = f"{v}__{helper.name.strip('_')}{serial}"
-    body = _guard_to_else([_clone(s) for s in _strip_doc(helper.body)])
+    raw = [_clone(s) for s in _strip_doc(helper.body)]
+    simple_shape = _tail_returns_only(_guard_to_else([_clone(s) for s in raw]))
+    body = _guard_to_else(raw) if simple_shape else raw
     sub = _Subst(mapping, rename)
     body = [sub.visit(s) for s in body]
     # annotations of the helper's locals are dropped in the inlined copy (a local may now be bound at several call sites)
@@ -338,7 +539,43 @@ def _expand(call: ast.Call, form: str, target: T.Any, helper: T.Any, receiver: a
                 return ast.copy_location(ast.Assign(targets=[n.target], value=n.value), n)
             return n
     body = [_DeAnn().visit(s) for s in body]
-    out = pre + _returns_to(body, form, target, call)
+    if simple_shape:
+        out = pre + _returns_to(body, form, target, call)
+    elif form == "return":
+        # `return helper(...)`: the helper's returns are the caller's returns, wherever they are
+        out = pre + body + ([] if _terminates(body) else [ast.copy_location(ast.Return(value=None), call)])
+    elif form == "raise":
+        if not _terminates(body):
+            return None
+
+        class _ToRaise(ast.NodeTransformer):
+            def visit_Return(self, n: ast.Return) -> ast.AST:
+                return ast.copy_location(ast.Raise(exc=n.value, cause=None), n)
+        out = pre + [_ToRaise().visit(s) for s in body]
+    else:
+        el = _RetElim(form, target, helper.name.strip("_"), serial, observed)
+        if form == "assign" and not _terminates(body):
+            body = body + [ast.copy_location(ast.Return(value=None), call)]
+        try:
+            new_body = el.block(body, True, 0)
+        except _NotInlinable:
+            return None
+        if el.flag_read:
+            new_body = [ast.copy_location(ast.Assign(targets=[ast.Name(id=el.flag, ctx=ast.Store())], value=ast.Constant(value=False)), call)] + new_body
+        else:
+            class _DropFlag(ast.NodeTransformer):
+                def visit_Assign(self, n: ast.Assign) -> T.Any:
+                    if isinstance(n.targets[0], ast.Name) and n.targets[0].id == el.flag:
+                        return None
+                    return n
+            new_body = [x for x in (_DropFlag().visit(s) for s in new_body) if x is not None]
+            for x in [y for s_ in new_body for y in ast.walk(s_)]:
+                for field in ("body", "orelse"):
+                    if field == "body" and isinstance(getattr(x, "body", None), list) and not x.body:
+                        x.body = [ast.copy_location(ast.Pass(), x)]
+        if el.temp:
+            new_body.append(ast.copy_location(ast.Assign(targets=[_clone(target)], value=ast.Name(id=el.temp, ctx=ast.Load())), call))
+        out = pre + new_body
     for s in out:
         ast.fix_missing_locations(s)
     return out or [ast.copy_location(ast.Pass(), call)]
@@ -362,19 +599,62 @@ def _stmt_calls(fn: T.Any) -> set[int]:
     return ok
 
 
-def inline_new_helpers(tree: ast.Module, known_functions: set[str]) -> list[str]:
-    """Inline private helpers that are not in `known_functions` (keys 'Class.method' / 'function')."""
+def _module_bindings(tree: ast.Module) -> set[str]:
+    out: set[str] = set()
+    for st in ast.walk(tree):
+        if isinstance(st, ast.Import):
+            out |= {(a.asname or a.name.split(".")[0]) for a in st.names}
+        elif isinstance(st, ast.ImportFrom):
+            out |= {(a.asname or a.name) for a in st.names}
+    for st in tree.body:
+        if isinstance(st, FUNC_KINDS + (ast.ClassDef,)):
+            out.add(st.name)
+        elif isinstance(st, ast.Assign):
+            out |= {t.id for t in st.targets if isinstance(t, ast.Name)}
+        elif isinstance(st, ast.AnnAssign) and isinstance(st.target, ast.Name):
+            out.add(st.target.id)
+    return out
+
+
+_SERIAL = [0]
+
+
+def inline_new_helpers(tree: ast.Module, known_functions: set[str], extern: dict[str, tuple[T.Any, str, ast.Module]] | None = None) -> list[str]:
+    """Inline helpers that are not in `known_functions` (keys 'Class.method' / 'function').  `extern`: new module-level helpers of
+    OTHER units that this unit imports: local name -> (definition, defining module, its tree); the module-level names their bodies
+    use are imported from the defining module."""
     notes: list[str] = []
-    counter = [0]
+    counter = _SERIAL
     allf: list[T.Any] = []
     new: dict[str, T.Any] = {}
     owner: dict[str, T.Any] = {}
     dup: set[str] = set()
+    if extern:
+        here = _module_bindings(tree)
+        for local, (fn, src_mod, src_tree) in extern.items():
+            there = _module_bindings(src_tree)
+            params = {a.arg for a in fn.args.args + fn.args.kwonlyargs}
+            stored = {n.id for n in ast.walk(fn) if isinstance(n, ast.Name) and isinstance(n.ctx, ast.Store)}
+            need = sorted({n.id for n in ast.walk(fn) if isinstance(n, ast.Name) and isinstance(n.ctx, ast.Load)} & there - here - params - stored)
+            if need:
+                imp = ast.ImportFrom(module=src_mod, names=[ast.alias(name=x, asname=None) for x in need], level=0)
+                ast.fix_missing_locations(ast.copy_location(imp, tree.body[0]))
+                tree.body.insert(0, imp)
+                here |= set(need)
+            cp = _clone(fn)
+            cp.name = local
+            cp._in_class = bool(getattr(fn, "_in_class", False))  # type: ignore[attr-defined]
+            cp._extern = True  # type: ignore[attr-defined]
+            if local in new:
+                dup.add(local)
+            new[local] = cp
     for n in tree.body:
         if isinstance(n, FUNC_KINDS):
             allf.append(n)
             n._in_class = False  # type: ignore[attr-defined]
-            if n.name.startswith("_") and not n.name.startswith("__") and n.name not in known_functions:
+            if extern is not None:
+                continue            # second pass: only the imported helpers
+            if not n.name.startswith("__") and n.name not in known_functions:
                 (dup.add(n.name) if n.name in new else None)
                 new[n.name] = n
                 owner[n.name] = tree
@@ -383,7 +663,9 @@ def inline_new_helpers(tree: ast.Module, known_functions: set[str]) -> list[str]
                 if isinstance(m, FUNC_KINDS):
                     allf.append(m)
                     m._in_class = True  # type: ignore[attr-defined]
-                    if m.name.startswith("_") and not m.name.startswith("__") and f"{n.name}.{m.name}" not in known_functions:
+                    if extern is not None:
+                        continue
+                    if not m.name.startswith("__") and f"{n.name}.{m.name}" not in known_functions:
                         (dup.add(m.name) if m.name in new else None)
                         new[m.name] = m
                         owner[m.name] = n
@@ -392,6 +674,8 @@ def inline_new_helpers(tree: ast.Module, known_functions: set[str]) -> list[str]
     new = {k: v for k, v in new.items() if k not in dup and k not in known_names}
     if not new:
         return notes
+    _DEFS.clear()
+    _DEFS.update(new)
     # ---- statement helpers
     stmts = {k: v for k, v in new.items() if inlinable(v)}
     for _ in range(3):
@@ -481,6 +765,8 @@ def inline_new_helpers(tree: ast.Module, known_functions: set[str]) -> list[str]
                 return walk(x.test) if walk(x.test) is not None else False
             if isinstance(x, ast.UnaryOp):
                 return walk(x.operand)
+            if isinstance(x, ast.Attribute):
+                return walk(x.value)
             if isinstance(x, ast.Compare):
                 seq = [x.left] + list(x.comparators)
             elif isinstance(x, ast.BinOp):
@@ -491,6 +777,8 @@ def inline_new_helpers(tree: ast.Module, known_functions: set[str]) -> list[str]
                 seq = [x.value, x.slice]
             elif isinstance(x, ast.Starred):
                 seq = [x.value]
+            elif isinstance(x, ast.Dict) and all(k is not None for k in x.keys):
+                seq = [y for kv in zip(x.keys, x.values) for y in kv]
             else:
                 return False
             for y in seq:
@@ -572,6 +860,10 @@ def inline_new_helpers(tree: ast.Module, known_functions: set[str]) -> list[str]
             if name in dropped:
                 continue
             h = new[name]
+            if getattr(h, "_extern", False):
+                dropped.add(name)
+                changed = True
+                continue
             still = any((isinstance(n, ast.Attribute) and n.attr == name) or (isinstance(n, ast.Name) and n.id == name)
                         for f in allf if f is not h and not (f.name in dropped and new.get(f.name) is f) for n in ast.walk(f))
             if not still:
